@@ -426,8 +426,10 @@ inline void disarm_watchdog() {
     setitimer(ITIMER_VIRTUAL, &it, nullptr);
 }
 
+static bool g_announce = false; // print the case index before running it (for tools without an on-report hook, e.g. TSan)
 inline void begin_case(uint64_t c) {
     g_case = c;
+    if (g_announce) sig_write("\nBEGIN", c, 0);
     arm_watchdog();
 }
 inline void end_case(bool check_ledger = true) {
